@@ -229,7 +229,7 @@ func typeName(t types.Type) string {
 	}
 	nm := t.String()
 	if n, ok := t.(*types.Named); ok {
-		nm = n.Origin().Obj().Name()
+		nm = canonType(n.Origin().Obj().Name())
 	}
 	if owner, ok := nestedOwner[nm]; ok {
 		return owner
@@ -247,7 +247,7 @@ func rawTypeName(t types.Type) string {
 		break
 	}
 	if n, ok := t.(*types.Named); ok {
-		return n.Origin().Obj().Name()
+		return canonType(n.Origin().Obj().Name())
 	}
 	return t.String()
 }
